@@ -60,7 +60,7 @@ def gen_check(spec, mod, seed, tier="quick"):
     n = len(sv)
     consts = {c["name"]: c for c in mod["consts"]}
     cfg = spec.cfg
-    rng = random.Random(seed * 7919 + hash(spec.mod) % 1000)
+    rng = random.Random(seed * 7919 + __import__('zlib').crc32(spec.mod.encode()) % 1000)
     L = []
     w = L.append
     w("    pub fn __check(seed: u64) -> crate::support::Out {")
